@@ -16,14 +16,13 @@
 (* so the root module evaluates Tab once per instance and passes it down.     *)
 EXTENDS LibShapeTab, FiniteSets
 
-Tab ==
-    LET objs == Objs
-        rows == Rows
-        ids  == {objs[i].id : i \in 1..Len(objs)}
-    IN  [objs |-> objs, rows |-> rows, forins |-> ForIns, ids |-> ids,
+MkTab(objs, rows, forins) ==
+    LET ids  == {objs[i].id : i \in 1..Len(objs)}
+    IN  [objs |-> objs, rows |-> rows, forins |-> forins, ids |-> ids,
          oix  |-> [id \in ids |-> CHOOSE i \in 1..Len(objs) : objs[i].id = id],
          \* indexes of the rows of each owner, in table order
          own  |-> [id \in ids |-> SelectSeq([i \in 1..Len(rows) |-> i], LAMBDA i : rows[i].owner = id)]]
+Tab == MkTab(Objs, Rows, ForIns)
 
 Obj(tb, id) == tb.objs[tb.oix[id]]
 OwnRows(tb, id) == [k \in 1..Len(tb.own[id]) |-> tb.rows[tb.own[id][k]]]
@@ -113,7 +112,7 @@ MissingOf(tb, id) ==
 NewExp(o) == IF o.callable /\ ~o.ctor /\ o.grp \in {"lib", "annexB"} THEN "TypeError" ELSE "n/a"
 ObjExp(tb, o) ==
     [ty |-> TypeOfObj(o), new |-> NewExp(o), cls |-> ClassOf(o), proto |-> ProtoOf(o), ext |-> o.ext,
-     missing |-> MissingOf(tb, o.id), enumextra |-> <<>>, reflect |-> o.reflect]    \* 15.2.3.3: "ok", getOwnPropertyDescriptor answers for every own name
+     missing |-> MissingOf(tb, o.id), dupnames |-> <<>>, enumextra |-> <<>>, reflect |-> o.reflect]    \* 15.2.3.3: "ok", getOwnPropertyDescriptor answers for every own name
 (* the distinguishing call of a function (or constructor, or callable/regexp   *)
 (* prototype): its result is written in the table                              *)
 CallExp(o) == o.callexp
@@ -141,11 +140,72 @@ ForInAcc(tb, ch, k, seen, acc) ==
 ForInExp(tb, id) == ForInAcc(tb, Chain(tb, id, 6), 1, {}, <<>>)
 
 -----------------------------------------------------------------------------
-(* Internal consistency of the table: what clause 15 says of all its entries  *)
-
 RowAt(tb, owner, name) ==
     LET s == SelectSeq(OwnRows(tb, owner), LAMBDA r : r.name = name) IN s
 HasRow(tb, owner, name) == Len(RowAt(tb, owner, name)) = 1
+
+
+(* Runtimes are independent (the statement: the shape holds in every runtime,  *)
+(* fresh, copied, copy of a copy, whatever scripts ran in ANOTHER runtime).    *)
+(* A script that changes the library structurally in ONE runtime of a group    *)
+(* {original, copy, copy of the copy} is described here as an operation on the *)
+(* table: the runtime that ran it must show MutTab(tb), every other runtime of *)
+(* the group, and every Copy() taken from them afterwards, still tb.           *)
+(*   8.12.7 [[Delete]] of a configurable property: it is gone (each victim is  *)
+(*          NOT the last own property of its owner);                           *)
+(*   8.12.5 [[Put]] of a new name: a data property {w, e, c};                  *)
+(*   8.12.5 [[Put]] on an existing writable property: value replaced,          *)
+(*          attributes kept;  8.12.9 [[DefineOwnProperty]]: as given.          *)
+MutDels == << <<"Math", "abs">>, <<"JSON", "parse">>, <<"Object", "defineProperties">>,
+              <<"Array.prototype", "concat">>, <<"String.prototype", "charAt">>, <<"global", "parseFloat">>,
+              <<"Date.prototype", "getYear">> >>
+MutAdds == << [owner |-> "Math", name |-> "zzAdded", js |-> "1", val |-> IntV(1)],
+              [owner |-> "JSON", name |-> "zzAdded", js |-> "'x'", val |-> StrV(<<120>>)],
+              [owner |-> "Array", name |-> "zzAdded", js |-> "true", val |-> BoolV(TRUE)] >>
+MutPuts == << [owner |-> "Math", name |-> "floor", target |-> "Math.ceil"] >>            \* Math.floor = Math.ceil
+MutDefs == << [owner |-> "String.prototype", name |-> "trim", js |-> "5", val |-> IntV(5), attrs |-> <<"F", "F", "T">>] >>
+OwnerJs(id) == IF id = "global" THEN "GLOBAL" ELSE id
+TF(a) == IF a = "T" THEN "true" ELSE "false"
+RECURSIVE MutJs(_, _)
+MutJs(part, k) ==
+    CASE part = "del" -> IF k > Len(MutDels) THEN MutJs("add", 1)
+                         ELSE "delete " \o OwnerJs(MutDels[k][1]) \o "['" \o MutDels[k][2] \o "']; " \o MutJs("del", k + 1)
+      [] part = "add" -> IF k > Len(MutAdds) THEN MutJs("put", 1)
+                         ELSE OwnerJs(MutAdds[k].owner) \o "['" \o MutAdds[k].name \o "'] = " \o MutAdds[k].js \o "; " \o MutJs("add", k + 1)
+      [] part = "put" -> IF k > Len(MutPuts) THEN MutJs("def", 1)
+                         ELSE OwnerJs(MutPuts[k].owner) \o "['" \o MutPuts[k].name \o "'] = " \o MutPuts[k].target \o "; " \o MutJs("put", k + 1)
+      [] part = "def" -> IF k > Len(MutDefs) THEN ""
+                         ELSE LET d == MutDefs[k] IN
+                              "Object.defineProperty(" \o OwnerJs(d.owner) \o ", '" \o d.name \o "', {value: " \o d.js
+                              \o ", writable: " \o TF(d.attrs[1]) \o ", enumerable: " \o TF(d.attrs[2]) \o ", configurable: " \o TF(d.attrs[3])
+                              \o "}); " \o MutJs("def", k + 1)
+MutScript == MutJs("del", 1)
+MutRow(r) ==
+    IF \E k \in 1..Len(MutDels) : MutDels[k] = <<r.owner, r.name>>
+    THEN [r EXCEPT !.kind = "absent", !.target = "", !.val = Undef, !.attrs = <<>>]
+    ELSE IF \E k \in 1..Len(MutPuts) : MutPuts[k].owner = r.owner /\ MutPuts[k].name = r.name
+    THEN LET p == MutPuts[CHOOSE k \in 1..Len(MutPuts) : MutPuts[k].owner = r.owner /\ MutPuts[k].name = r.name]
+         IN  [r EXCEPT !.target = p.target]
+    ELSE IF \E k \in 1..Len(MutDefs) : MutDefs[k].owner = r.owner /\ MutDefs[k].name = r.name
+    THEN LET d == MutDefs[CHOOSE k \in 1..Len(MutDefs) : MutDefs[k].owner = r.owner /\ MutDefs[k].name = r.name]
+         IN  [r EXCEPT !.kind = "value", !.target = "", !.val = d.val, !.attrs = d.attrs, !.valmode = "exact"]
+    ELSE r
+AddedRows == [k \in 1..Len(MutAdds) |->
+                [owner |-> MutAdds[k].owner, name |-> MutAdds[k].name, kind |-> "element", attrs |-> <<"T", "T", "T">>,
+                 target |-> "", val |-> MutAdds[k].val, valmode |-> "exact", clause |-> "8.12.5 step 6"]]
+MutTab(tb) == MkTab(tb.objs, [k \in 1..Len(tb.rows) |-> MutRow(tb.rows[k])] \o AddedRows, tb.forins)
+(* the mutation is what it says: every victim is a configurable property of the table that is not the last  *)
+(* row of its owner, every added name is new, every redefined one exists and is writable / configurable     *)
+MutOK(tb) ==
+    /\ \A k \in 1..Len(MutDels) :
+          LET rs == RowAt(tb, MutDels[k][1], MutDels[k][2]) IN
+          Len(rs) = 1 /\ AttrsOf(rs[1])[3] = "T" /\ tb.rows[tb.own[MutDels[k][1]][Len(tb.own[MutDels[k][1]])]].name # MutDels[k][2]
+    /\ \A k \in 1..Len(MutAdds) : ~HasRow(tb, MutAdds[k].owner, MutAdds[k].name)
+    /\ \A k \in 1..Len(MutPuts) : HasRow(tb, MutPuts[k].owner, MutPuts[k].name) /\ AttrsOf(RowAt(tb, MutPuts[k].owner, MutPuts[k].name)[1])[1] = "T"
+    /\ \A k \in 1..Len(MutDefs) : HasRow(tb, MutDefs[k].owner, MutDefs[k].name) /\ AttrsOf(RowAt(tb, MutDefs[k].owner, MutDefs[k].name)[1])[3] = "T"
+
+-----------------------------------------------------------------------------
+(* Internal consistency of the table: what clause 15 says of all its entries  *)
 
 (* the set of entries that break a rule; TableOK = there is none *)
 RowIssues(tb, r) ==
